@@ -760,3 +760,108 @@ def lemma_exactly_once(reg, repo):
     o = Oblig("gaftools.gfa:lemma::link-emitted-from-exactly-one-end", "lemma", hyps, goal)
     o.inputs = []
     return [o]
+
+
+# ---- sort_bo_no (C07: S lines in (BO, NO) order): the result lists every node of the set exactly where its bucket and rank put it, ordered by (BO, NO) ----
+TagI = TupleT(STR, INT)   # order_gfa stores BO / NO as ('i', <int>)
+NodeBO = ObjT("Node", id=STR, tags=DictT(STR, TagI))
+NodeBO.name = "Obj<NodeBOView>"
+GFABO = ObjT("GFA", nodes=DictT(STR, NodeBO))
+GFABO.name = "Obj<GFABOView>"
+GFABO.dunder = {"__getitem__": "nodes", "__contains__": "nodes"}
+BUCKETS = DictT(INT, ListT(STR))
+
+
+def register_sort_bo_no(reg):
+    M = {"BO": "lambda x: self.nodes[x].tags['BO'][1]", "NO": "lambda x: self.nodes[x].tags['NO'][1]", "SB": "lambda: separate_bubbles"}
+    inv1 = {
+        "every-node-so-far-is-in-its-bucket": "forall(lambda t: implies(0 <= t < it1, BO(E[t]) in SB() and 0 <= bpos[E[t]] < len(SB()[BO(E[t])]) and SB()[BO(E[t])][bpos[E[t]]] == E[t]))",
+        "buckets-hold-only-their-nodes": "forall([INT, INT], lambda k, i: implies(k in SB() and 0 <= i < len(SB()[k]), SB()[k][i] in set_of_nodes and BO(SB()[k][i]) == k and "
+                                         "bpos[SB()[k][i]] == i and 0 <= epos[SB()[k][i]] < it1 and E[epos[SB()[k][i]]] == SB()[k][i]))",
+        "no-empty-bucket": "forall(INT, lambda k: implies(k in SB(), len(SB()[k]) >= 1))",
+    }
+    inv2 = {
+        "same-keys-same-sizes": "forall(INT, lambda k: (k in SB()) == (k in SB0) and implies(k in SB0, len(SB()[k]) == len(SB0[k])))",
+        "keys-listed-so-far": "len(bo_ids) == it2 and forall(lambda t: implies(0 <= t < it2, bo_ids[t] == K[t]))",
+        "sorted-buckets-hold-their-nodes": "forall([INT, STR], lambda t, x: implies(0 <= t < it2 and x in set_of_nodes and BO(x) == K[t], "
+                                           "0 <= bpos2[x] < len(SB()[K[t]]) and SB()[K[t]][bpos2[x]] == x))",
+        "sorted-buckets-hold-only-their-nodes": "forall([INT, INT], lambda t, i: implies(0 <= t < it2 and 0 <= i < len(SB()[K[t]]), SB()[K[t]][i] in set_of_nodes and "
+                                                "BO(SB()[K[t]][i]) == K[t] and bpos2[SB()[K[t]][i]] == i))",
+        "sorted-buckets-ascend-in-NO": "forall([INT, INT, INT], lambda t, i, j: implies(0 <= t < it2 and 0 <= i < j < len(SB()[K[t]]), NO(SB()[K[t]][i]) <= NO(SB()[K[t]][j])))",
+        "other-buckets-untouched": "forall(lambda t: implies(it2 <= t < len(K), same(SB()[K[t]], SB0[K[t]])))",
+    }
+    SBK = "SB()[SK[{u}]]"
+    inv3 = {
+        "length": "len(sorted_set_of_nodes) == OFF[it3]",
+        "buckets-copied-in-key-order": "forall([INT, INT], lambda u, i: implies(0 <= u < it3 and 0 <= i < len(SB()[SK[u]]), sorted_set_of_nodes[OFF[u] + i] == SB()[SK[u]][i]))",
+        "every-position-comes-from-a-bucket": "forall(lambda j: implies(0 <= j < len(sorted_set_of_nodes), 0 <= ru[j] < it3 and 0 <= ri[j] < len(SB()[SK[ru[j]]]) and OFF[ru[j]] + ri[j] == j))",
+    }
+    inv4 = {
+        "length": "len(sorted_set_of_nodes) == OFF[it3 - 1] + it4",
+        "earlier-buckets-kept": "forall([INT, INT], lambda u, i: implies(0 <= u < it3 - 1 and 0 <= i < len(SB()[SK[u]]), sorted_set_of_nodes[OFF[u] + i] == SB()[SK[u]][i]))",
+        "this-bucket-so-far": "forall(lambda i: implies(0 <= i < it4, sorted_set_of_nodes[OFF[it3 - 1] + i] == SB()[SK[it3 - 1]][i]))",
+        "every-position-comes-from-a-bucket": "forall(lambda j: implies(0 <= j < len(sorted_set_of_nodes), 0 <= ru[j] <= it3 - 1 and 0 <= ri[j] < len(SB()[SK[ru[j]]]) and "
+                                              "OFF[ru[j]] + ri[j] == j and implies(ru[j] == it3 - 1, ri[j] < it4)))",
+    }
+    OFFDEF = [
+        "OFF[0] == 0 and forall(lambda u: implies(0 <= u < len(SK), OFF[u + 1] == OFF[u] + len(SB()[SK[u]])))",
+        # pairwise form of the same prefix sums (consequence by induction, bucket lengths are non-negative)
+        "forall(lambda u, v: implies(0 <= u < v <= len(SK), OFF[u] + len(SB()[SK[u]]) <= OFF[v])) and forall(lambda u: implies(0 <= u <= len(SK), OFF[u] >= 0))",
+    ]
+    RPOS = "OFF[kperm[kpos[BO(x)]]] + bpos2[x]"
+    reg.add(Contract(
+        file=GFA, func="GFA.sort_bo_no", params=dict(self=GFABO, set_of_nodes=SetT(STR)), returns=ListT(STR), pure=True, types=dict(STR=STR, INT=INT),
+        ghost=dict(E=ListT(STR), e0=MapT(STR, INT), bpos=MapT(STR, INT), epos=MapT(STR, INT), K=ListT(INT), kpos=MapT(INT, INT), SB0=BUCKETS, bpos2=MapT(STR, INT),
+                   sort_perm=MapT(INT, INT), sort_perm_inv=MapT(INT, INT), kperm=MapT(INT, INT), kinv=MapT(INT, INT), OFF=MapT(INT, INT),
+                   ru=MapT(INT, INT), ri=MapT(INT, INT)),
+        locals=dict(separate_bubbles=BUCKETS, bo_ids=ListT(INT), sorted_set_of_nodes=ListT(STR)),
+        spec_funcs=M,
+        requires=["forall(STR, lambda x: implies(x in set_of_nodes, x in self.nodes and 'BO' in self.nodes[x].tags and 'NO' in self.nodes[x].tags))"],
+        ghost_at={"before:for n in set_of_nodes": "E = members(set_of_nodes)\ne0 = last_keypos()",
+                  "after:separate_bubbles[self[n].tags['BO'][1]]": "bpos[n] = len(separate_bubbles[BO(n)]) - 1\nepos[n] = it1 - 1",
+                  "after:sorted_set_of_nodes.append(n_id)": "ru[len(sorted_set_of_nodes) - 1] = it3 - 1\nri[len(sorted_set_of_nodes) - 1] = it4 - 1"},
+        loops={1: Loop(index="it1", fingerprint="for n in set_of_nodes", invariant=inv1,
+                       hints=["forall(STR, lambda x: implies(x in set_of_nodes, 0 <= e0[x] < len(E) and E[e0[x]] == x))"]),
+               2: Loop(index="it2", fingerprint="for bo, n_list in separate_bubbles.items()", invariant=inv2, modifies=["sort_perm", "sort_perm_inv"],
+                       hints=["forall(lambda t: implies(0 <= t < len(K), kpos[K[t]] == t and K[t] in SB0)) and "
+                              "forall(INT, lambda k: implies(k in SB0, 0 <= kpos[k] < len(K) and K[kpos[k]] == k))"],
+                       ghost_before="K = keys(separate_bubbles)\nkpos = last_keypos()\nSB0 = separate_bubbles",
+                       ghost_body_end="bpos2 = remap(bpos2, lambda x: x in set_of_nodes and BO(x) == bo, lambda x: sort_perm[bpos[x]])"),
+               3: Loop(index="it3", seq_name="SK", fingerprint="for bo in sorted(bo_ids)", invariant=inv3,
+                       pres_from={"buckets-copied-in-key-order": ["loop4:earlier-buckets-kept", "loop4:this-bucket-so-far"],
+                                  "length": ["loop4:length", "loop3:assume0"],
+                                  "every-position-comes-from-a-bucket": ["loop4:every-position-comes-from-a-bucket"]},
+                       ghost_before="kperm = sort_perm\nkinv = sort_perm_inv", assume_before=OFFDEF,
+                       hints=["forall(lambda u: implies(0 <= u < len(SK), SK[u] == K[kinv[u]] and 0 <= kinv[u] < len(K) and kperm[kinv[u]] == u and SK[u] in SB()))",
+                              "forall(lambda u, v: implies(0 <= u < v < len(SK), SK[u] < SK[v]))",
+                              "len(SK) == len(K) and forall(lambda t: implies(0 <= t < len(K), 0 <= kperm[t] < len(SK) and SK[kperm[t]] == K[t] and kinv[kperm[t]] == t))"]),
+               4: Loop(index="it4", fingerprint="for n_id in separate_bubbles[bo]", invariant=inv4)},
+        assert_at={"before:return sorted_set_of_nodes": {
+            "positions-name-bucket-members": {"expr": "forall(lambda j: implies(0 <= j < len(sorted_set_of_nodes), 0 <= ru[j] < len(SK) and 0 <= ri[j] < len(SB()[SK[ru[j]]]) and "
+                                                      "sorted_set_of_nodes[j] == SB()[SK[ru[j]]][ri[j]] and OFF[ru[j]] + ri[j] == j))",
+                                              "from": ["loop3:buckets-copied-in-key-order", "loop3:every-position-comes-from-a-bucket"]},
+            "bucket-facts-by-sorted-key": {"expr": "forall([INT, INT], lambda u, i: implies(0 <= u < len(SK) and 0 <= i < len(SB()[SK[u]]), SB()[SK[u]][i] in set_of_nodes and "
+                                                   "BO(SB()[SK[u]][i]) == SK[u] and bpos2[SB()[SK[u]][i]] == i)) and "
+                                                   "forall([INT, INT, INT], lambda u, i, j: implies(0 <= u < len(SK) and 0 <= i < j < len(SB()[SK[u]]), NO(SB()[SK[u]][i]) <= NO(SB()[SK[u]][j])))",
+                                           "from": ["loop2:sorted-buckets-hold-only-their-nodes", "loop2:sorted-buckets-ascend-in-NO", "loop3:hint0"]},
+            "only-nodes-of-the-set": {"expr": "forall(lambda j: implies(0 <= j < len(sorted_set_of_nodes), sorted_set_of_nodes[j] in set_of_nodes))",
+                                      "from": ["positions-name-bucket-members", "bucket-facts-by-sorted-key"]},
+            "position-of-each-listed-node": {"expr": "forall(lambda j: implies(0 <= j < len(sorted_set_of_nodes), "
+                                                     "OFF[kperm[kpos[BO(sorted_set_of_nodes[j])]]] + bpos2[sorted_set_of_nodes[j]] == j))",
+                                             "from": ["positions-name-bucket-members", "bucket-facts-by-sorted-key", "loop3:hint0", "loop2:hint0"]},
+            "every-node-has-its-position": {"expr": "forall(STR, lambda x: implies(x in set_of_nodes, 0 <= %(r)s < len(sorted_set_of_nodes) and sorted_set_of_nodes[%(r)s] == x))" % dict(r=RPOS),
+                                            "from": ["loop1:hint0", "loop1:every-node-so-far-is-in-its-bucket", "loop2:same-keys-same-sizes", "loop2:hint0",
+                                                     "loop2:sorted-buckets-hold-their-nodes", "loop3:hint2", "loop3:buckets-copied-in-key-order", "loop3:length",
+                                                     "loop3:assume0", "loop3:assume1"]},
+            "ascending": {"expr": "forall(lambda i, j: implies(0 <= i < j < len(sorted_set_of_nodes), BO(sorted_set_of_nodes[i]) < BO(sorted_set_of_nodes[j]) or "
+                                  "(BO(sorted_set_of_nodes[i]) == BO(sorted_set_of_nodes[j]) and NO(sorted_set_of_nodes[i]) <= NO(sorted_set_of_nodes[j]))))",
+                          "from": ["positions-name-bucket-members", "bucket-facts-by-sorted-key", "loop3:hint1", "loop3:assume1"]},
+        }},
+        ensures={
+            "only-nodes-of-the-set": "forall(lambda j: implies(0 <= j < len(result), result[j] in set_of_nodes))",
+            "every-node-of-the-set-exactly-once": "forall(STR, lambda x: implies(x in set_of_nodes, 0 <= %s < len(result) and result[%s] == x)) and "
+                                                  "forall(lambda j: implies(0 <= j < len(result), OFF[kperm[kpos[BO(result[j])]]] + bpos2[result[j]] == j))" % (RPOS, RPOS),
+            "ascending-in-BO-then-NO": "forall(lambda i, j: implies(0 <= i < j < len(result), BO(result[i]) < BO(result[j]) or "
+                                       "(BO(result[i]) == BO(result[j]) and NO(result[i]) <= NO(result[j]))))",
+        },
+    ))
